@@ -30,8 +30,26 @@ Definition sym_accs (var : string) : list access :=
   [ mkAcc var true false AElem (XIt 0) (XIn (BIt 0) BTop);
     mkAcc var true false AElem (XIn (BIt 0) BTop) (XIt 0) ].
 
-(* shape of a descriptor with the variable names erased *)
+(* shape of a descriptor with the variable names erased; two descriptors have the same shape when they
+   list the same access shapes, in any order and multiplicity *)
 Definition acc_shape (a : access) := (a_write a, a_crit a, a_kind a, a_i a, a_j a).
+
+Definition bound_eqb (b b' : bound) : bool :=
+  match b, b' with BIt c, BIt c' => Z.eqb c c' | BTop, BTop => true | _, _ => false end.
+Definition ix_eqb (x y : ix) : bool :=
+  match x, y with
+  | XIt c, XIt c' => Z.eqb c c'
+  | XIn l h, XIn l' h' => bound_eqb l l' && bound_eqb h h'
+  | XAny, XAny => true
+  | _, _ => false
+  end.
+Definition kind_eqb (k k' : akind) : bool :=
+  match k, k' with AElem, AElem | AAppend, AAppend | AOpaque, AOpaque => true | _, _ => false end.
+Definition shape_eqb (a b : access) : bool :=
+  Bool.eqb (a_write a) (a_write b) && Bool.eqb (a_crit a) (a_crit b) && kind_eqb (a_kind a) (a_kind b) &&
+  ix_eqb (a_i a) (a_i b) && ix_eqb (a_j a) (a_j b).
+Definition same_shapes (l l' : list access) : bool :=
+  forallb (fun a => existsb (shape_eqb a) l') l && forallb (fun b => existsb (shape_eqb b) l) l'.
 
 (* ------------------------------------------------------------------ HLLE: the thread-private basis Yi
    one key per column of Yi.  An iteration of hessian_weight_matrix writes column 0 (setConstant),
